@@ -176,3 +176,8 @@ func ZZ_C14_store_collapsing_copy() {
 	}
 	_ = math.MaxInt32
 }
+
+// C14: being the argument of a merge (round 2): receiver and argument never share memory afterwards
+func ZZ_C14_merge_argument_independent_pag()    { zzC02Matrix(2, 2) }
+func ZZ_C14_merge_argument_independent_dense()  { zzC02Matrix(0, 0) }
+func ZZ_C14_merge_argument_independent_sparse() { zzC02Matrix(1, 1) }
